@@ -173,7 +173,7 @@ func (s *muxerSegmenter) writeVP9(
 	codec := track.Codec.(*codecs.VP9)
 	randomAccess := false
 
-	if !h.NonKeyFrame {
+	if !h.NonKeyFrame && !h.ShowExistingFrame {
 		randomAccess = true
 
 		if v := h.Width(); v != codec.Width {
